@@ -1038,6 +1038,18 @@ impl<'a> Evaluator<'a> {
                         }
                         _ => Err("push on a string: bad arguments".into()),
                     },
+                    (Val::Str(st), "pop") => Ok(st.pop().map(|c| Val::some(Val::Char(c))).unwrap_or(Val::none())),
+                    (Val::Str(st), "clear") => {
+                        st.clear();
+                        Ok(Val::Unit)
+                    }
+                    (Val::Str(st), "truncate") => match args.get(0) {
+                        Some(Val::Int { v, .. }) if (*v as usize) <= st.len() && st.is_char_boundary(*v as usize) => {
+                            st.truncate(*v as usize);
+                            Ok(Val::Unit)
+                        }
+                        _ => Err("String::truncate: bad arguments".into()),
+                    },
                     (Val::Str(st), "push_str") => match args.get(0) {
                         Some(Val::Str(o)) => {
                             st.push_str(o);
@@ -1330,6 +1342,11 @@ impl<'a> Evaluator<'a> {
                 match name.as_str() {
                     "unwrap_or_default" if is_none => Ok(Val::List(vec![])),
                     "unwrap" | "expect" if is_some => Ok(inner.unwrap()),
+                    "to_string" if matches!(recv, Val::Int { input: false, .. } | Val::Bool(_)) => Ok(Val::Str(match &recv {
+                        Val::Int { v, .. } => v.to_string(),
+                        Val::Bool(b) => b.to_string(),
+                        _ => unreachable!(),
+                    })),
                     "into" | "clone" | "to_owned" | "as_ref" | "as_deref" | "to_string" | "as_str" | "copied" | "cloned" | "borrow" | "as_mut" | "into_iter" | "iter" | "iter_mut" | "to_vec" => Ok(recv),
                     // index arithmetic (the receiver is treated as unsigned: a negative difference is None / 0)
                     "checked_sub" | "checked_add" | "saturating_sub" | "saturating_add" | "wrapping_add" if matches!(recv, Val::Int { input: false, .. }) && mc.args.len() == 1 => {
